@@ -4,7 +4,7 @@
    w = exp(-2 pi i/n) (contract, exercised by the correspondence).  The D-dimensional transform is the iterate of the 1-D one
    along each axis; the statements below are per axis. *)
 From Coq Require Import ZArith List Bool Lia.
-From EXV Require Import Base.Scalar Base.FieldLemmas Layout.Freq Layout.FreqProofs DFT.DFT1.
+From EXV Require Import Base.Scalar Base.FieldLemmas Layout.Freq Layout.FreqProofs DFT.DFT1 IC.Normalize DFT.DFTD.
 Import ListNotations.
 Ltac splits := repeat match goal with |- _ /\ _ => split end.
 
@@ -27,6 +27,14 @@ Theorem C04_round_trip : forall (F : FieldT) (n : nat) (w w' : F),
   forall (u : nat -> F) (j : nat), (j < n)%nat -> idft n w' (dft n w u) j = u j.
 Proof. intros F n w w' Hn H1 H2 H3 u j Hj. apply dft_inversion; assumption. Qed.
 Print Assumptions C04_round_trip.
+
+(* the same in every dimension: the D-fold iterate of the inverse transform undoes the D-fold iterate of the transform at every grid point *)
+Theorem C04_round_trip_any_dimension : forall (F : FieldT) (n : nat) (w w' : F),
+  (0 < n)%nat -> fpow w n = o1 -> (forall m, (0 < m < n)%nat -> fpow w m <> o1) -> omul w w' = o1 ->
+  forall (D : nat) (u : list nat -> F) (j : list nat), length j = D -> Forall (fun b => (b < n)%nat) j ->
+  idftI n D w' (dftD n D w u) j = u j.
+Proof. intros F n w w' Hn H1 H2 H3 D u j Hl Hj. apply (dftD_inversion F n w w'); try assumption. split; assumption. Qed.
+Print Assumptions C04_round_trip_any_dimension.
 
 (* a sampled character c * exp(+2 pi i m j / n) appears in exactly the stored mode m with value n*c, 0 elsewhere
    (a cosine a cos(theta + phi) is the sum of the characters m and -m with c = a e^{i phi}/2 and its conjugate) *)
